@@ -239,7 +239,13 @@ func propertyMain(id string, args []string) int {
 		}
 
 		if hr.Truncated {
-			inconclusive = append(inconclusive, fmt.Sprintf("%s: path limit reached, exploration incomplete", name))
+			why := "path limit reached"
+			if hr.WallCap {
+				why = "wall-clock cap reached"
+			} else if len(hr.Violations) >= 64 {
+				why = "stopped after 64 candidate violations"
+			}
+			inconclusive = append(inconclusive, fmt.Sprintf("%s: %s, exploration incomplete", name, why))
 		}
 		if hr.Uncertain > 0 {
 			inconclusive = append(inconclusive, fmt.Sprintf("%s: %d paths with solver unknown/timeouts/errors", name, hr.Uncertain))
